@@ -182,7 +182,11 @@ rest += '//@   loop 4 invariant[only C03.Rest] (#i == 0 || (gStart == atloop(opn
 rest += '//@   loop 4 invariant[only C03.Rest] implies(#i == 0 && e.IntelRdt != nil, opk[opn - 1] == 10 && opsA[opn - 1] == e.IntelRdt.ClosID && spec.Linux != nil && spec.Linux.IntelRdt != nil &&\n//@                        spec.Linux.IntelRdt.ClosID == e.IntelRdt.ClosID && spec.Linux.IntelRdt.L3CacheSchema == e.IntelRdt.L3CacheSchema && spec.Linux.IntelRdt.MemBwSchema == e.IntelRdt.MemBwSchema &&\n//@                        spec.Linux.IntelRdt.EnableCMT == e.IntelRdt.EnableCMT && spec.Linux.IntelRdt.EnableMBM == e.IntelRdt.EnableMBM)\n'
 rest += '//@   assert[only C03.Rest] at return: implies(err == nil && e != nil && e.ContainerEdits != nil && len(e.AdditionalGIDs) > 0, gTotal == opn && gTotal == OffAt(gOff, len(e.AdditionalGIDs), gStart) &&\n//@                        forall(k, 1 <= k && k <= len(e.AdditionalGIDs), trig(gOff[k], gOff[k] == gEnd[k-1])) &&\n//@                        forall(k, 0 <= k && k < len(e.AdditionalGIDs), trig(gEnd[k], gStart <= OffAt(gOff, k, gStart) && gEnd[k] <= gTotal && ' + conj(gid_rec('OffAt(gOff, k, gStart)', 'k', 'gEnd[k]')) + ')))\n'
 
-BODY = devices + mounts + hooks + rest
+direct = """// C03 frame of the direct writes: besides the logged operations the body itself stores only to these OCI fields
+// (the uid/gid of the local device value, the three hook lists without generator support, the RDT object).
+//@   directwrites github.com/opencontainers/runtime-spec/specs-go: LinuxDevice.UID, LinuxDevice.GID, Hooks.CreateRuntime, Hooks.CreateContainer, Hooks.StartContainer, Linux.IntelRdt
+"""
+BODY = devices + mounts + hooks + rest + direct
 
 a = s.index('//@ func (e *ContainerEdits) Apply(spec *oci.Spec) (err error)')
 if '// ---- C03: what Apply does' in s:
